@@ -375,3 +375,142 @@ func C17_Indexed() {
 	}
 	vf.Reach("indexed")
 }
+
+// ---- '*' operands as solver variables
+
+// starFormats: one '*' (width or precision) per directive; kinds = argument
+// kinds the verb applies to (i int, f float, s string, y bytes).
+var starFormats = []struct{ f, kinds string }{
+	{"%*d", "i"}, {"%-*d", "i"}, {"%0*d", "i"}, {"%.*d", "i"}, {"%+.*d", "i"}, {"%#.*x", "isy"}, {"%.*x", "isy"}, {"% .*X", "sy"},
+	{"%.*U", "i"}, {"%#.*U", "i"}, {"%#*U", "i"}, {"%*c", "i"}, {"%-*q", "is"}, {"%.*o", "i"}, {"%#.*b", "i"},
+	{"%*s", "sy"}, {"%-*s", "s"}, {"%.*s", "sy"}, {"%.*q", "s"}, {"%0*s", "s"},
+	{"%.*f", "f"}, {"%*.1f", "f"}, {"%+0*e", "f"}, {"%-*g", "f"}, {"%.*g", "f"}, {"%#.*e", "f"},
+	{"%*t", "b"}, {"%-*v", "b"},
+}
+
+func kindLetter(a fmtArg) byte {
+	switch a.gov.(type) {
+	case int64:
+		return 'i'
+	case float64:
+		return 'f'
+	case string:
+		return 's'
+	case bool:
+		return 'b'
+	}
+	return 'y'
+}
+
+// C17_Star: the width or precision is taken from a '*' operand that is a
+// solver variable in -70..70 (beyond every internal scratch-buffer size of the
+// formatter: 68 bytes), the value from the boundary set, restricted to the
+// argument kinds the verb applies to: same text as fmt.Sprintf, no panic.
+func C17_Star() {
+	sf := starFormats[vf.Choice("fmt", len(starFormats))]
+	args := fmtArgs()
+	a := args[vf.Choice("arg", len(args))]
+	if !contains(sf.kinds, string(kindLetter(a))) {
+		vf.Stop()
+	}
+	dir := []byte(sf.f[1:])
+	if excludedFmt(dir, a) {
+		vf.Stop()
+	}
+	w := vf.Int64("w")
+	vf.Assume(w >= -70)
+	vf.Assume(w <= 70)
+	format := "<" + sf.f + ">"
+	var got string
+	var err error
+	res := vf.Guard(func() { got, err = tengo.Format(format, &tengo.Int{Value: w}, a.obj) }, 3000000)
+	vf.Assert(res == 0, "format with a '*' operand terminates without panic: "+sf.f+" "+a.name+": "+vf.LastGuard())
+	vf.Assert(err == nil, "format with a '*' operand of at most 70 does not hit the string limit")
+	vf.RealFmt(true)
+	want := fmt.Sprintf(format, int(w), a.gov)
+	vf.RealFmt(false)
+	if got != want {
+		fmtMismatch(want, got, dir, []interface{}{int(w)}, a)
+	}
+	vf.Reach("star")
+}
+
+// ---- state carried from one directive (or one call) to the next
+
+// seqFirst: directives that leave width/precision/flag state behind.
+var seqFirst = []string{"%12d", "%-9d", "%*d", "%.7d", "%015d", "%+9.3d", "%[1]*d", "%#12x", "% 11d", "%8.2d"}
+
+// seqSecond: directives without width and precision (flags and a verb only:
+// the formatter's fast path), and plain ones.
+var seqSecond = []string{"%0f", "%+0g", "% 0e", "%0d", "%-0d", "%+d", "%0x", "%#0o", "%0s", "%0v", "%f", "%d", "%s", "%-s", "%0q", "%+0.0f", "%0c", "%0U"}
+
+// C17_Sequence: formatter state (flags, width, precision are per-directive;
+// printers are recycled through a pool) must not leak from one directive to
+// the next, nor from one call to the next: D1|D2 in one call, and D1 then D2
+// in two consecutive calls, print what fmt.Sprintf prints.
+func C17_Sequence() {
+	d1 := seqFirst[vf.Choice("d1", len(seqFirst))]
+	d2 := seqSecond[vf.Choice("d2", len(seqSecond))]
+	is := []int64{7, -12, 1234567}
+	v1 := is[vf.Choice("v1", len(is))]
+	args := fmtArgs()
+	a := args[vf.Choice("arg", len(args))]
+	body := append([]byte(d2[1:]), '>')
+	verb := body[verbIndex(body)]
+	// the verb of D2 must apply to the argument kind (bad-verb texts are the
+	// recorded deviation F8a, %v is F8b: both have their own harness)
+	ok := false
+	switch kindLetter(a) {
+	case 'i':
+		ok = contains("dxoqcU", string(verb))
+	case 'f':
+		ok = contains("fge", string(verb))
+	case 's':
+		ok = contains("sxq", string(verb))
+	case 'b':
+		ok = false
+	case 'y':
+		ok = contains("sx", string(verb))
+	}
+	if !ok || excludedFmt([]byte(d2[1:]), a) {
+		vf.Stop()
+	}
+	var o1 []tengo.Object
+	var g1 []interface{}
+	if contains(d1, "*") {
+		o1, g1 = append(o1, &tengo.Int{Value: 14}), append(g1, 14)
+	}
+	o1, g1 = append(o1, &tengo.Int{Value: v1}), append(g1, v1)
+	twoCalls := vf.Choice("two-calls", 2) == 1
+	var got, want string
+	var err error
+	if twoCalls {
+		var gotA, gotB string
+		res := vf.Guard(func() {
+			gotA, err = tengo.Format(d1, o1...)
+			if err == nil {
+				gotB, err = tengo.Format("<"+d2+">", a.obj)
+			}
+		}, 3000000)
+		vf.Assert(res == 0 && err == nil, "two consecutive format calls return: "+vf.LastGuard())
+		got = gotA + "|" + gotB
+		vf.RealFmt(true)
+		want = fmt.Sprintf(d1, g1...) + "|" + fmt.Sprintf("<"+d2+">", a.gov)
+		vf.RealFmt(false)
+	} else {
+		f := d1 + "|<" + d2 + ">"
+		res := vf.Guard(func() { got, err = tengo.Format(f, append(o1, a.obj)...) }, 3000000)
+		vf.Assert(res == 0 && err == nil, "format with two directives returns: "+vf.LastGuard())
+		vf.RealFmt(true)
+		want = fmt.Sprintf(f, append(g1, a.gov)...)
+		vf.RealFmt(false)
+	}
+	if got != want {
+		how := "in one call"
+		if twoCalls {
+			how = "in two consecutive calls"
+		}
+		vf.Fail("a directive after another directive " + how + " prints what it prints alone (as fmt.Sprintf) | `" + d1 + "` then `" + d2 + "` arg " + a.name + " got " + got + " want " + want)
+	}
+	vf.Reach("sequence")
+}
